@@ -290,6 +290,10 @@ inductive PSource where
   | load (extra : List (String × Int))     -- `cfg.LoadJSON(valid file + an "rpc_policy"-like object with these entries)`
   | env (extra : List (String × Int))      -- `cfg.ApplyEnvVars()` with CLUSTER_RPCPOLICY-like variables set to these entries
   | follower                               -- the keyed assignments of cmd/ipfs-cluster-follow
+  /-- the daemon's path (round 8b): a FRESH `Config` registered with a config.Manager by `cmdutils.NewLoadedConfigHelper`
+      (`LoadJSONFileAndEnv`: `LoadJSON` of a service.json carrying these entries, then `ApplyEnvVars`), then
+      `SetupTracing`; what the daemon hands to `NewCluster` is `Configs().Cluster` -/
+  | helper (extra : List (String × Int))
   deriving Repr, DecidableEq
 
 /-- a keyed assignment `<cfg>.RPCPolicy["k"] = v` found outside `setDefaults` -/
@@ -337,6 +341,12 @@ def carries (sh : PolShape) : Bool := sh.applyWritesPolicy && sh.jsonPolicyKeys.
 def mergeEntries (pol : Policy) (extra : List (String × Int)) : Policy :=
   extra.foldl (fun p e => override p e.1 (some e.2)) pol
 
+/-- the keyed writes the translator found inside package `cmdutils` (none today) -/
+def helperWrites (sh : PolShape) : List PolWrite := sh.keyedWrites.filter (fun w => w.dir == "cmdutils")
+
+/-- does a fresh `Config` get the table from `LoadJSON` -/
+def freshInstalled (sh : PolShape) : Bool := sh.loadCallsSetDefaults && sh.setDefaultsInstalls
+
 def polStep (sh : PolShape) (st : PolState) : PSource → PolState
   | .default => { st with installed := st.installed || (sh.defaultCallsSetDefaults && sh.setDefaultsInstalls) }
   | .load extra =>
@@ -346,6 +356,12 @@ def polStep (sh : PolShape) (st : PolState) : PSource → PolState
   | .follower =>
     { st with global := if st.installed then sh.keyedWrites.foldl (fun q w => override q w.key (some w.value)) st.global
                         else st.global }
+  | .helper extra =>
+    { global := if freshInstalled sh then
+                  (helperWrites sh).foldl (fun q w => override q w.key (some w.value))
+                    (if carries sh then mergeEntries st.global extra else st.global)
+                else st.global,
+      installed := freshInstalled sh }
 
 /-- state after the steps, in order, starting from a zero `Config` and the shipped table -/
 def policyAfter (sh : PolShape) (shipped : Policy) (srcs : List PSource) : PolState :=
@@ -356,5 +372,25 @@ def PolState.table (st : PolState) : Policy := if st.installed then st.global el
 
 def policyOf (sh : PolShape) (shipped : Policy) (srcs : List PSource) : Policy :=
   (policyAfter sh shipped srcs).table
+
+
+/-! ## what the handlers behind the endpoints reach (rpc_api.go, the methods of *Cluster) -/
+
+/-- regenerated by the translator, per endpoint: `calls` = (field of the Cluster / API struct, method) reached by the handler
+    (for the open endpoints: transitively through the methods of `*Cluster`); `forwards` = endpoints the serving peer calls
+    over RPC while serving the request - with ITS credentials, not the caller's (`"?"`: not a literal); `unread` = uses the
+    translator cannot follow (the Cluster handed to a function, a method value, another receiver field) -/
+structure Reach where
+  svc : String
+  ep : String
+  calls : List (String × String)
+  forwards : List String
+  unread : List String
+  deriving Repr, DecidableEq
+
+/-- the component an API type wraps, by service name -/
+def componentOf (svc : String) : String :=
+  if svc == "Cluster" then "c" else if svc == "PinTracker" then "tracker" else if svc == "IPFSConnector" then "ipfs"
+  else if svc == "Consensus" then "consensus" else if svc == "PeerMonitor" then "monitor" else "?"
 
 end CV.C07
